@@ -21,6 +21,10 @@ def units(tier):
         n = len(recur.anchors(kind, tier))
         for i in range(n):
             us.append((kind, i))
+    for a in A.KINDS:
+        for b in A.KINDS:
+            if a != b:
+                us.append(("switch", a, b))
     return us
 
 
@@ -65,6 +69,12 @@ def check_rec(ctx, kind, c, desc):
     ctx.traces += 1
     shown = lambda: [impl.sstr(p) for p in pts[:8]]  # noqa: E731
     ctx.outcome("series_len", len(pts))
+    # outside the exact float domain a bound comparison can flip on rounding noise (a decimal-hour anchor stepped by
+    # seconds accumulates 1e-12 s): the count / end-anchor oracles are then not judged (same rule as C14)
+    noisy = (not nominal) and not _exact_float(desc["anchor"], ddesc)
+    if noisy and n_eff is not None and len(pts) != n_eff:
+        ctx.count("series_not_judged_float_noise")
+        return r
     # O1 count
     if n_eff is not None:
         if len(pts) != n_eff:
@@ -172,6 +182,21 @@ def check_notations(ctx, kind, c, anchor, ddesc, n):
 
 
 def run_unit(unit, ctx):
+    if unit[0] == "switch":
+        # series that span several years, iterated in mode A, then B, then A again in one process
+        for kx in (unit[1], unit[2], unit[1]):
+            impl.set_mode(A.MODE_OF[kx])
+            cx = M.cal(kx)
+            for anchor in recur.anchors(kx, "quick")[:6]:
+                for d in ({"days": 366}, {"days": 1}, {"years": 1}, {"months": 1}, {"weeks": 1}):
+                    for fmt in (3, 4, 1):
+                        if fmt == 1 and recur.is_nominal(d):
+                            continue
+                        ctx.state_count += 1
+                        check_rec(ctx, kx, cx, {"fmt": fmt, "n": 4, "anchor": anchor, "dur": d, "via": "ctor"})
+                    if not recur.is_nominal(d):
+                        check_notations(ctx, kx, cx, anchor, d, 4)
+        return
     kind, ai = unit
     impl.set_mode(A.MODE_OF[kind])
     c = M.cal(kind)
